@@ -545,3 +545,210 @@ Example C18_ex_response_bytes :
   s_HTTP11_SP ++ [x32; x30; x30; x20; x4f; x4b; x0d; x0a] ++ s_content_length ++ [x35; x0d; x0a] ++
   s_conn_keep ++ [x0d; x0a; x58; x3a; x20; x31; x0d; x0a; x0d; x0a] ++ hello.
 Proof. vm_compute. reflexivity. Qed.
+
+
+(* ========================================================================================== *)
+(* Cross-model links (appended; owner: the links, docs/Link.md section L3)                      *)
+(* ========================================================================================== *)
+(* This file's decoder model keeps its own copy of "the Buffer's readable bytes" (d_buf) and is
+   FED chunks.  Link_CodecConn makes the decoder the message callback of C01's connection model
+   (Conn_Model): the decoder's buffer IS the connection's input buffer [inb]; [KRead chunk] =
+   POLLIN with the kernel's read returning chunk = Conn_Model's [EvReadData chunk], then the decode
+   loop on the whole buffered input, then [Retrieve] of exactly what the loop consumed; [KOp o] =
+   any other Conn_Model op.  D = C18_Model (this file's model); the unqualified connection names
+   below are Conn_Model's. *)
+Local Close Scope Z_scope.
+From Muduo Require Import Conn_Model Link_CodecConn Link_Properties_L3.
+
+(* the machine, as equations *)
+Theorem C18_link_k_step_def :
+  forall (St Ev : Type) (dstep : St -> list byte -> D.sres St Ev) (k : kst St) chunk o,
+  k_step St Ev dstep k (KRead chunk) =
+    (match Conn_Model.step (k_conn k) (EvReadData chunk) with
+     | Conn_Model.Ok (c1, e1) =>
+         let (cevs, d') := on_message St Ev dstep (k_dst k) (k_ab k) (k_oof k) (inb c1) in
+         match Conn_Model.step c1 (Conn_Model.Retrieve (length (inb c1) - length (D.d_buf d'))) with
+         | Conn_Model.Ok (c2, e2) => Conn_Model.Ok (mkK c2 (D.d_st d') (D.d_abandoned d') (D.d_oof d'), e1 ++ e2, cevs)
+         | Conn_Model.Rejected => Conn_Model.Rejected
+         | Conn_Model.Fault => Conn_Model.Fault
+         end
+     | Conn_Model.Rejected => Conn_Model.Rejected
+     | Conn_Model.Fault => Conn_Model.Fault
+     end) /\
+  k_step St Ev dstep k (KOp o) =
+    (match Conn_Model.step (k_conn k) o with
+     | Conn_Model.Ok (c', e) => Conn_Model.Ok (mkK c' (k_dst k) (k_ab k) (k_oof k), e, [])
+     | Conn_Model.Rejected => Conn_Model.Rejected
+     | Conn_Model.Fault => Conn_Model.Fault
+     end).
+Proof. exact (fun St Ev dstep k chunk o => conj eq_refl eq_refl). Qed.
+Print Assumptions C18_link_k_step_def.
+
+Theorem C18_link_defs :
+  forall (St Ev : Type) (dstep : St -> list byte -> D.sres St Ev) (k : kst St) (s : St) ab oof b (ko : kop) ops,
+  on_message St Ev dstep s ab oof b =
+    (if ab || oof then ([], D.mkD s b ab oof) else D.run dstep (S (length b)) s b) /\
+  kop_wf ko = (match ko with KOp (EvReadData _) | KOp (Conn_Model.Retrieve _) => false | _ => true end) /\
+  chunks_of ops = flat_map (fun o => match o with KRead c => [c] | KOp _ => [] end) ops /\
+  k_run St Ev dstep k ops =
+    (match ops with
+     | [] => Conn_Model.Ok (k, [], [])
+     | o :: rest =>
+         match k_step St Ev dstep k o with
+         | Conn_Model.Ok (k1, e1, v1) =>
+             match k_run St Ev dstep k1 rest with
+             | Conn_Model.Ok (k2, e2, v2) => Conn_Model.Ok (k2, e1 ++ e2, v1 ++ v2)
+             | Conn_Model.Rejected => Conn_Model.Rejected
+             | Conn_Model.Fault => Conn_Model.Fault
+             end
+         | Conn_Model.Rejected => Conn_Model.Rejected
+         | Conn_Model.Fault => Conn_Model.Fault
+         end
+     end).
+Proof.
+  exact (fun St Ev dstep k s ab oof b ko ops =>
+    match L3_defs St Ev dstep k Establish s ab oof b ko ops with
+    | conj _ r => r
+    end).
+Qed.
+Print Assumptions C18_link_defs.
+
+(* generic: for any decoder of this file's Stream section whose loop leaves a suffix of its buffer
+   (it consumes by Buffer::retrieve), every history of the connection with the decoder as message
+   callback gives the events and state of the chunk-fed decoder [D.feed_all] on the chunks the
+   kernel delivered; the connection's input buffer is the decoder's unconsumed rest; the chunks
+   concatenated are the stream delivered so far *)
+Theorem C18_decoder_on_connection :
+  forall (St Ev : Type) (dstep : St -> list byte -> D.sres St Ev),
+  (forall s b evs s' r, dstep s b = D.SEmit evs s' r -> exists n, r = skipn n b) ->
+  forall s0 mark wc hw ops k e v, forallb kop_wf ops = true ->
+  k_run St Ev dstep (mkK (Conn_Model.init mark wc hw) s0 false false) ops = Conn_Model.Ok (k, e, v) ->
+  (v, D.mkD (k_dst k) (inb (k_conn k)) (k_ab k) (k_oof k)) = D.feed_all dstep (D.init s0) (chunks_of ops) /\
+  delivered (k_conn k) = concat (chunks_of ops).
+Proof. exact L3_decoder_on_connection. Qed.
+Print Assumptions C18_decoder_on_connection.
+
+(* HEADLINE: ProtobufCodecLite::onMessage on a TcpConnection.  Whatever way the kernel splits the
+   peer's byte stream into reads, and whatever else happens on the connection in between (sends,
+   writable events, shutdown, pausing and resuming reads, functors): the messages - and the first
+   error, if any - the codec's callbacks have been given are the reference decoding [ref_decode]
+   of the byte stream RECEIVED SO FAR; the connection's input buffer holds exactly the reference's
+   unconsumed rest; retrieved ++ buffered = received; abandoned iff an error was reported; the
+   decode loop never runs out of fuel.  (= C01_inbound_stream_trace composed with
+   C18_equals_reference, hence with C18_seg_invariant.) *)
+Theorem C18_codec_on_connection :
+  forall (msg : Type) (parse : list byte -> option msg) (tag : list byte) mark wc hw ops k e v,
+  forallb kop_wf ops = true ->
+  k_run unit (D.cevent msg) (D.cstep msg parse tag) (mkK (Conn_Model.init mark wc hw) tt false false) ops
+    = Conn_Model.Ok (k, e, v) ->
+  let s := delivered (k_conn k) in
+  s = concat (chunks_of ops) /\
+  Conn_Model.consumed (k_conn k) ++ inb (k_conn k) = s /\
+  (let '(ms, er, rest) := D.ref_decode msg parse tag (S (length s)) s in
+   v = map (@D.CMsg msg) ms ++ (match er with Some x => [@D.CErr msg x] | None => [] end) /\
+   inb (k_conn k) = rest /\
+   k_ab k = (match er with Some _ => true | None => false end) /\ k_oof k = false).
+Proof. exact L3_codec_on_connection. Qed.
+Print Assumptions C18_codec_on_connection.
+
+(* the connection part of such a history is a Conn_Model history: C01 / C02 / C03 / C13 apply *)
+Theorem C18_link_history_is_connection_history :
+  forall (St Ev : Type) (dstep : St -> list byte -> D.sres St Ev) ops k k' e v,
+  k_run St Ev dstep k ops = Conn_Model.Ok (k', e, v) ->
+  Conn_Model.run (k_conn k) (conn_ops St Ev dstep k ops) = Conn_Model.Ok (k_conn k', e).
+Proof. exact L3_history_is_connection_history. Qed.
+Print Assumptions C18_link_history_is_connection_history.
+
+(* non-vacuity: one frame (tag "RPC0", payload 01 02) cut after 5 bytes - inside the tag - with a
+   send in between: nothing after the first read, the message after the second, buffer empty *)
+Example C18_link_ex_run : exists k e,
+  k_run unit (D.cevent (list byte)) (D.cstep (list byte) Some l3_tag)
+    (mkK (Conn_Model.init 100 false false) tt false false) l3_ops
+    = Conn_Model.Ok (k, e, [D.CMsg l3_payload]) /\
+  forallb kop_wf l3_ops = true /\ inb (k_conn k) = [] /\ length (Conn_Model.consumed (k_conn k)) = 14 /\
+  e = [EvUp; EvMsg 5; EvMsg 14].
+Proof. exact l3_ex_run. Qed.
+
+(* ---- the HTTP parser as message callback -------------------------------------------------- *)
+(* [D.hstep] is this file's line-at-a-time step, proved equal to the literal parser loop on live
+   parser states (C18_http_line_atomic's machinery).  For every history of the connection with
+   HttpContext::parseRequest as message callback: events (requests, the 400), parser state,
+   abandoned flag and input buffer are those of the literal chunk-fed parser [http_feed_all] on the
+   reads the kernel delivered, i.e. the reference parse [ref_http] of the byte stream received so
+   far. *)
+From Muduo Require Import Link_CodecHttp.
+Theorem C18_http_on_connection : forall mark wc hw ops k e v, forallb kop_wf ops = true ->
+  k_run D.hctx D.hevent D.hstep (mkK (Conn_Model.init mark wc hw) D.ctx0 false false) ops = Conn_Model.Ok (k, e, v) ->
+  let s := delivered (k_conn k) in
+  s = concat (chunks_of ops) /\
+  Conn_Model.consumed (k_conn k) ++ inb (k_conn k) = s /\
+  (v, D.mkD (k_dst k) (inb (k_conn k)) (k_ab k) (k_oof k)) = D.http_feed_all D.http_init (chunks_of ops) /\
+  (v, D.mkD (k_dst k) (inb (k_conn k)) (k_ab k) (k_oof k)) = C18_HttpRef.ref_http s.
+Proof. exact L3_http_on_connection. Qed.
+Print Assumptions C18_http_on_connection.
+
+(* ---- the codec on a connection whose inputBuffer_ is a concrete Buffer (L3 over L1) ------- *)
+(* Link_ConnBuf_Model (quoted as equations in Properties_C01.v, section "Cross-model links") is the
+   connection over two concrete C10 Buffers; B = C10_Model.  [KCRead kr] = handleRead with the
+   kernel's answer kr to readFd's readv; if it delivered something the decode loop runs on the
+   readable bytes of inputBuffer_ and Buffer::retrieve(consumed) is called on the real buffer. *)
+From Muduo Require Import Link_ConnBuf_Model Link_ConnBuf Link_CodecBuf.
+Theorem C18_link_kc_step_def : forall (St Ev : Type) (dstep : St -> list byte -> D.sres St Ev) k kr o,
+  kc_step St Ev dstep k (KCRead kr) =
+    (match c_step (kc_conn k) (CRead kr) with
+     | Conn_Model.Ok (c1, e1) =>
+         if 0 <? length (B.delivered (B.readFd_capacity (ibuf (kc_conn k))) kr) then
+           let (cevs, d') := on_message St Ev dstep (kc_dst k) (kc_ab k) (kc_oof k) (B.readable (ibuf c1)) in
+           match c_step c1 (COp (Conn_Model.Retrieve (B.readableBytes (ibuf c1) - length (D.d_buf d')))) with
+           | Conn_Model.Ok (c2, e2) => Conn_Model.Ok (mkKC c2 (D.d_st d') (D.d_abandoned d') (D.d_oof d'), e1 ++ e2, cevs)
+           | Conn_Model.Rejected => Conn_Model.Rejected
+           | Conn_Model.Fault => Conn_Model.Fault
+           end
+         else Conn_Model.Ok (mkKC c1 (kc_dst k) (kc_ab k) (kc_oof k), e1, [])
+     | Conn_Model.Rejected => Conn_Model.Rejected
+     | Conn_Model.Fault => Conn_Model.Fault
+     end) /\
+  kc_step St Ev dstep k (KCOp o) =
+    (match c_step (kc_conn k) o with
+     | Conn_Model.Ok (c', e) => Conn_Model.Ok (mkKC c' (kc_dst k) (kc_ab k) (kc_oof k), e, [])
+     | Conn_Model.Rejected => Conn_Model.Rejected
+     | Conn_Model.Fault => Conn_Model.Fault
+     end) /\
+  kcop_wf (KCRead kr) = true /\
+  kcop_wf (KCOp o) = (match o with COp (Conn_Model.Retrieve _) | CRead _ | CRetrieveAll => false | o => cop_wf o end).
+Proof. exact L3_kc_step_def. Qed.
+Print Assumptions C18_link_kc_step_def.
+
+(* HEADLINE over the real Buffer: for every history (any kernel answers to readv - any split, end
+   of file, errors -, any other ops in between) the codec's events are the reference decoding of
+   the byte stream received so far and the readable bytes of inputBuffer_ are the reference's
+   unconsumed rest; and no such history faults (no Buffer precondition is violated by
+   TcpConnection or by the codec's retrieve). *)
+Theorem C18_codec_on_real_buffers :
+  forall (msg : Type) (parse : list byte -> option msg) (tag : list byte) mark wc hw ops k e v,
+  forallb kcop_wf ops = true ->
+  kc_run unit (D.cevent msg) (D.cstep msg parse tag) (mkKC (c_init mark wc hw) tt false false) ops
+    = Conn_Model.Ok (k, e, v) ->
+  let s := delivered (ctl (kc_conn k)) in
+  Conn_Model.consumed (ctl (kc_conn k)) ++ B.readable (ibuf (kc_conn k)) = s /\
+  (let '(ms, er, rest) := D.ref_decode msg parse tag (S (length s)) s in
+   v = map (@D.CMsg msg) ms ++ (match er with Some x => [@D.CErr msg x] | None => [] end) /\
+   B.readable (ibuf (kc_conn k)) = rest /\
+   kc_ab k = (match er with Some _ => true | None => false end) /\ kc_oof k = false).
+Proof. exact L3_codec_on_real_buffers. Qed.
+Print Assumptions C18_codec_on_real_buffers.
+
+Theorem C18_codec_on_real_buffers_no_fault :
+  forall (msg : Type) (parse : list byte -> option msg) (tag : list byte) mark wc hw ops,
+  forallb kcop_wf ops = true ->
+  kc_run unit (D.cevent msg) (D.cstep msg parse tag) (mkKC (c_init mark wc hw) tt false false) ops
+    <> Conn_Model.Fault.
+Proof. exact L3_codec_on_real_buffers_no_fault. Qed.
+Print Assumptions C18_codec_on_real_buffers_no_fault.
+
+Example C18_link_ex_real_buffers : exists k e,
+  kc_run unit (D.cevent (list byte)) (D.cstep (list byte) Some l3_tag)
+    (mkKC (c_init 100 false false) tt false false) l3_kc_ops = Conn_Model.Ok (k, e, [D.CMsg l3_payload]) /\
+  forallb kcop_wf l3_kc_ops = true /\ B.readable (ibuf (kc_conn k)) = [] /\
+  e = [EvUp; EvMsg 5; EvMsg 14; EvDown].
+Proof. exact l3_ex_real_buffers. Qed.
